@@ -1214,7 +1214,9 @@ class Interp:
                         kw_open = kw_open or m.open
                     else:
                         kw_open = True
-                if isinstance(v, _Top):
+                if isinstance(v, _Top) or not members(v):
+                    # unknown mapping, or no value at all (the receiver cannot exist on this path, e.g. the first element of a list
+                    # that is empty in this calling context): nothing is known about the keys
                     kw_open = True
             else:
                 kwargs[k.arg] = v
@@ -2071,7 +2073,8 @@ class Interp:
 
             ok = s_b == {"peek()"} or \
                 (all(first(x) or not x.endswith("]") for x in s_b) and all(last_or_first(x) or not x.endswith("]") for x in e_b)
-                 and {x.rsplit("[", 1)[0] for x in s_b if x.endswith("]")} == {x.rsplit("[", 1)[0] for x in e_b if x.endswith("]")}
+                 and ({x.rsplit("[", 1)[0] for x in s_b if x.endswith("]")} <= {x.rsplit("[", 1)[0] for x in e_b if x.endswith("]")}
+                      or {x.rsplit("[", 1)[0] for x in e_b if x.endswith("]")} <= {x.rsplit("[", 1)[0] for x in s_b if x.endswith("]")})
                  and {x for x in s_b if not x.endswith("]")} == {x for x in e_b if not x.endswith("]")}) or \
                 fn in ORDERED_SPAN_IDIOMS
             self.emit("A5-loc-order", f"{site}", "ok" if ok else "fail", where,
